@@ -442,9 +442,32 @@ pub fn main(args: &crate::Args) {
         replay(p, seed);
     }
     let bound = if quick { 2 } else { 3 };
-    let (tapes, _) = collect_tapes(bound, 0, |t| {
+    let (mut tapes, _) = collect_tapes(bound, 0, |t| {
         let _ = cfg_from(t);
     });
+    // coupled full product: the MCU geometry of a scan depends on image size x sampling factors x scan script
+    // together (tape positions: 0 size, 1 components, 2 pattern, 3 restart, ... 11 script, 12 eob policy, 14 sampling)
+    {
+        let len = tapes[0].len();
+        for size in [0u32, 2, 3, 4, 5, 7] {
+            for sampling in 0..4u32 {
+                for script in 0..6u32 {
+                    for (restart, eob, pattern) in [(0u32, 0u32, 0u32), (2, 1, 5)] {
+                        let mut t = vec![0u32; len];
+                        t[0] = size;
+                        t[2] = pattern;
+                        t[3] = restart;
+                        t[11] = script;
+                        t[12] = eob;
+                        t[14] = sampling;
+                        tapes.push(t);
+                    }
+                }
+            }
+        }
+        tapes.sort();
+        tapes.dedup();
+    }
     let results = par_map(&tapes, n_threads(), |_, tp| {
         let mut t = Tape::from_answers(tp);
         let c = cfg_from(&mut t);
